@@ -123,6 +123,33 @@ def correspondence(rep, ctx):
                     fail(desc + " float vs HP", f"{k}: {a[k]!r} vs {b[k]!r}")
                     break
             gen._count("float-vs-hp")
+    # both classes agree — EVERY nuclide of the dataset once, paired with a reference nuclide, read in a fraction kind
+    # that crosses a conversion (mass <-> atoms <-> activity), so that each nuclide's double-precision atomic mass and
+    # decay constant is compared with its exact counterpart through the fractions
+    view = gen.view
+    ref_name = "H-3"
+    for i, nm in enumerate(view.names):
+        if nm == ref_name:
+            continue
+        stable = view.rate[i] == 0
+        mode = i % 3
+        unit, reader = (("g", "mole_fractions"), ("mol", "mass_fractions"), ("g", "activity_fractions"))[mode]
+        if stable and reader == "activity_fractions":
+            reader = "mole_fractions"
+        contents = {nm: 2.0, ref_name: 3.0}
+        desc = f"{{{nm!r}: 2.0, 'H-3': 3.0}} in {unit!r}: {reader}()"
+        rep.case(("all-nuclides-both-classes", nm, unit, reader), sample={"pair": nm, "unit": unit, "reader": reader} if i % 400 == 0 else None)
+        gen._count("float-vs-hp:all-nuclides")
+        try:
+            a = getattr(rd.Inventory(dict(contents), unit), reader)()
+            b = getattr(rd.InventoryHP(dict(contents), unit), reader)()
+        except Exception as e:  # noqa: BLE001
+            fail(desc, f"raised {type(e).__name__}: {e}")
+            continue
+        for k in a:
+            if abs(F(a[k]) - F(b[k])) > Fraction(5, 10**14) * max(F(a[k]), F(b[k])):
+                fail(desc, f"Inventory gives {k}: {a[k]!r}, InventoryHP gives {b[k]!r}")
+                break
     rep.corr["input_distribution"].update(gen.dist)
     rep.notes["mismatches"] = bad
 
